@@ -136,6 +136,16 @@ def run(ctx):
         frag_by_profile[d.get("profile", "")] += 1
         frag["no_shadow"] += bool(t.get("noShadow"))
         frag["probes"] += t.get("probes", 0)
+        # the hypotheses of route_refines_spec_fragment (Props/C02.lean), measured: the driver evaluates the equation on
+        # exactly the (scenario, request) pairs inside them
+        in_thm = bool(t.get("noShadow")) and bool(t.get("namesPlain")) and bool(t.get("routesHaveRules"))
+        frag["theorem_scenarios"] += in_thm
+        frag["theorem_probes_evaluated"] += t.get("thmProbes", 0)
+        frag["theorem_probes_excluded_by_reqOK"] += t.get("reqExcluded", 0)
+        if t.get("noShadow") and not t.get("namesPlain"):
+            frag["excluded_namesPlain"] += 1
+        if t.get("noShadow") and not t.get("routesHaveRules"):
+            frag["excluded_routesHaveRules"] += 1
         if t.get("confEqual"):
             frag["conf_equal"] += 1
         else:
@@ -192,6 +202,11 @@ def run(ctx):
             validated += 1
             tot["core_" + k] += 1
 
+    # the refinement theorem must not be vacuous on the generated inputs
+    if ctx.tier != "quick" or frag["in_fragment"] >= 10:
+        if frag["in_fragment"] and frag["theorem_probes_evaluated"] == 0:
+            ctx.broken("route_refines_spec_fragment was evaluated on no probe: its hypotheses exclude every generated in-fragment scenario")
+
     if tot["probes"] and tot["confError"] * 20 > tot["probes"]:
         ctx.broken(f"too many probes outside the modelled NGINX fragment: {tot['confError']} of {tot['probes']}")
 
@@ -222,6 +237,9 @@ def run(ctx):
         "(the Lean model is diffed against the unmodified httpmatches.js under node with a mock built to these rules)",
         "Gateway API semantics are those of Spec/GatewayAPI.lean (N1–N5 name the implementation-defined choices)",
         "admissible states: CRD defaults applied, (port,protocol,hostname) unique per Gateway, unique (kind,namespace,name)",
+        "route_refines_spec_fragment (all inputs) speaks about Model/Pipeline.gen; it reaches the real generator through the "
+        "translation validation abstract(real http.conf, matches.json) = gen s on every in-fragment scenario of the run, and "
+        "through Pipeline.routeF = Spec.GatewayAPI.route on the probes",
         "included files (policies, snippets, gRPC error pages), header modifiers and Host rewriting are not evaluated",
     ], trusted=[
         "Lean environment models NGF/Model/NginxLex, NginxParse, NginxEval and the oracle NGF/Spec/GatewayAPI",
